@@ -817,3 +817,163 @@ def _subst(t, sub):
     if t[0] == "f":
         return ("f", _subst(t[1], sub), t[2])
     return t
+
+
+# ------------------------------------------------------------------------------------------------
+# C07 (id → zoom side and the Hilbert calls): structural clauses only
+
+def r_findz(ctx):
+    """R-FINDZ: the zoom search answers Ok(z) only for a z that was assigned under the strict test `id < end of zoom z's block`,
+    iterates zooms 1..=31, and has an error exit; R-HILBERT-CALL: both conversions call hilbert_2d with (x, y, z) / (h, z) in order,
+    Variant::Hilbert, and add / subtract the same zoom base"""
+    obs = []
+    fz = [f for f in ctx.user_fns() if "MaxZError" in f["ret"] and "Result<u8" in f["ret"]]
+    if not fz:
+        return no_anchor("R-FINDZ", "zoom search (function returning Result<u8, MaxZError>)")
+    maxz = SPEC["max_zoom"]
+    for f in fz:
+        fa = ctx.fa(f)
+        fn = f["path"]
+        tid = V("param:tile_id")
+        guarded_assign = {}
+        unguarded = []
+        ranges = set()
+        for p in fa.paths:
+            for e in p.events:
+                if e.kind == "loop" and e.d["what"] == "enter" and e.d.get("iter") is not None:
+                    ranges.add(unmut(e.d["iter"]))
+                if e.kind == "assign" and e.d.get("name") and e.loops:
+                    val = unmut(e.d["value"])
+                    if val[0] == "elem" or (val[0] == "cast" and val[2][0] == "elem"):
+                        if _strict_block_test(fa, p, e, tid):
+                            guarded_assign[e.d["var"]] = True
+                        else:
+                            unguarded.append(e)
+        obs.append(Ob("R-FINDZ", fn, "zoom is recorded only under `id < end of that zoom's block` (strict)", bool(guarded_assign) and not unguarded,
+                      "guarded zoom assignments: %d, unguarded: %d" % (len(guarded_assign), len(unguarded)), unguarded[0].loc() if unguarded else rel(f["loc"])))
+        ok_range = len(ranges) == 1 and list(ranges)[0][0] == "struct" and struct_field(list(ranges)[0], "start") == C(1) and struct_field(list(ranges)[0], "end") == C(maxz + 1)
+        obs.append(Ob("R-FINDZ", fn, "searches zooms 1..=31", ok_range, "loop ranges: %s" % [tstr(r) for r in ranges], rel(f["loc"])))
+        oks = [p for p in fa.paths if p.exit == "ok"]
+        errs = [p for p in fa.paths if p.exit == "err"]
+        bad_ok = []
+        for p in oks:
+            v = unmut(p.value)
+            z = v[2][0] if is_call_to(v, lambda s: s == "core::result::Result::Ok") and v[2] else None
+            if z is None:
+                bad_ok.append("?")
+            elif z[0] == "c":
+                bad_ok.append("constant zoom %s" % z[1])
+            elif z[0] == "v":
+                # loop-carried: only the guarded assignment or the initial 0 can be its source, and 0 was excluded on this path
+                srcs = set(unmut(s) for s in fa.havoc_src.get(z, ()))
+                consts = [s for s in srcs if s[0] == "c"]
+                nz = any(d.d["how"] == "if" and _is_ne0(unmut(d.d["cond"]), z, d.d["outcome"]) for d in p.decisions())
+                if any(c != C(0) for c in consts) or (consts and not nz):
+                    bad_ok.append("zoom may keep its initial value")
+        obs.append(Ob("R-FINDZ", fn, "Ok only with an assigned zoom (the initial value leads to Err)", not bad_ok and bool(oks), "; ".join(bad_ok) or "ok paths: %d" % len(oks), rel(f["loc"])))
+        obs.append(Ob("R-FINDZ", fn, "ids beyond the last block are an error", bool(errs), "error exits: %d" % len(errs), rel(f["loc"])))
+    return obs
+
+
+def _is_ne0(c, z, outcome):
+    if c[0] == "bin" and c[1] in ("==", "!=") and {c[2], c[3]} == {z, C(0)}:
+        return (c[1] == "==") != (outcome is True)
+    return False
+
+
+def _strict_block_test(fa, p, e, tid):
+    i = unmut(e.d["value"])
+    while i[0] == "cast":
+        i = i[2]
+    for d in p.decisions(e.seq):
+        if d.d["how"] != "if" or d.loops != e.loops:
+            continue
+        for c, pol in _atoms_with_polarity(unmut(d.d["cond"]), d.d["outcome"] is True):
+            if c[0] != "bin" or c[1] not in ("<", ">", "<=", ">="):
+                continue
+            op = c[1]
+            if not pol:
+                op = {"<": ">=", "<=": ">", ">": "<=", ">=": "<"}[op]
+            if op == ">" and c[3] == tid:
+                acc = c[2]
+            elif op == "<" and c[2] == tid:
+                acc = c[3]
+            else:
+                continue
+            a = affine(acc)
+            pw = [k for k in a[1] if is_call_to(k, lambda s: s.endswith("::pow")) and k[2][0] == C(4) and _strip_cast(k[2][1]) == i]
+            carried = [k for k in a[1] if k[0] == "v" and k[1].startswith("loop")]
+            if len(pw) == 1 and len(carried) == 1 and a[0] == 0 and len(a[1]) == 2:
+                srcs = set(unmut(s) for s in fa.havoc_src.get(carried[0], ()))
+                if C(1) in srcs and all(s == C(1) or aff_eq(affine(s), a) for s in srcs):
+                    return True
+    return False
+
+
+def r_hilbert_call(ctx):
+    obs = []
+    enc = [f for f in ctx.user_fns() if any("xy2h_discrete" in c["fn"] for c in calls(f["body"]))]
+    dec = [f for f in ctx.user_fns() if any("h2xy_discrete" in c["fn"] for c in calls(f["body"]))]
+    if not enc or not dec:
+        return no_anchor("R-HILBERT-CALL", "coordinate/id conversions (callers of hilbert_2d::xy2h_discrete / h2xy_discrete)")
+    for f in enc:
+        fa = ctx.fa(f)
+        P = {n: V("param:" + n) for n in fa.param_names}
+        for p in fa.paths:
+            hc = [e for e in p.events if e.kind == "call" and "xy2h_discrete" in e.d["fn"]]
+            v = unmut(p.value)
+            if not hc:
+                ok = v == C(0) and any(_is_eq0(unmut(d.d["cond"]), P.get("z"), d.d["outcome"]) for d in p.decisions())
+                obs.append(Ob("R-HILBERT-CALL", f["path"], "zoom 0 ⇒ id 0", ok, "returns %s" % tstr(v)[:60], rel(f["loc"])))
+                continue
+            a = [_strip_cast(unmut(x)) for x in hc[0].d["args"]]
+            ok_args = a[:3] == [P.get("x"), P.get("y"), P.get("z")] and is_call_to(a[3], lambda s: s.endswith("Variant::Hilbert"))
+            obs.append(Ob("R-HILBERT-CALL", f["path"], "position = xy2h_discrete(x, y, z, Hilbert)", ok_args, "arguments: %s" % ", ".join(tstr(x)[:30] for x in a), hc[0].loc()))
+            av = affine(v)
+            hterm = [k for k in av[1] if _strip_cast(k) == unmut(hc[0].d["ret"]) or k == unmut(hc[0].d["ret"])]
+            base = [k for k in av[1] if k not in hterm]
+            ok_base = av[0] == 1 and len(hterm) == 1 and av[1][hterm[0]] == 1 and len(base) == 1 and av[1][base[0]] == 1 and _is_pow4_sum(base[0], P.get("z"))
+            obs.append(Ob("R-HILBERT-CALL", f["path"], "id = 1 + Σ_{1≤i<z} 4^i + position", ok_base, "returns %s" % aff_str(av)[:160], rel(f["loc"])))
+    for f in dec:
+        fa = ctx.fa(f)
+        tid = V("param:tile_id")
+        for p in fa.paths:
+            if p.exit != "ok":
+                continue
+            hc = [e for e in p.events if e.kind == "call" and "h2xy_discrete" in e.d["fn"]]
+            v = unmut(p.value)
+            tup = v[2][0] if is_call_to(v, lambda s: s == "core::result::Result::Ok") and v[2] else None
+            if not hc:
+                ok = tup == ("tup", (C(0), C(0), C(0))) and any(_is_eq0(unmut(d.d["cond"]), tid, d.d["outcome"]) for d in p.decisions())
+                obs.append(Ob("R-HILBERT-CALL", f["path"], "id 0 ⇒ 0/0/0", ok, "returns %s" % tstr(v)[:60], rel(f["loc"])))
+                continue
+            a = [unmut(x) for x in hc[0].d["args"]]
+            z = _strip_cast(a[1])
+            ha = affine(_strip_cast(a[0]))
+            base = [k for k in ha[1] if k != tid]
+            ok_h = ha[0] == -1 and ha[1].get(tid) == 1 and len(base) == 1 and ha[1][base[0]] == -1 and _is_pow4_sum(base[0], z) and is_call_to(a[2], lambda s: s.endswith("Variant::Hilbert"))
+            obs.append(Ob("R-HILBERT-CALL", f["path"], "position = id − (1 + Σ_{1≤i<z} 4^i), decoded with h2xy_discrete(_, z, Hilbert)", ok_h, "first argument %s" % aff_str(ha)[:140], hc[0].loc()))
+            r = unmut(hc[0].d["ret"])
+            ok_t = tup is not None and tup[0] == "tup" and len(tup[1]) == 3 and tup[1][0] == z and _strip_cast(tup[1][1]) == ("proj", r, 0) and _strip_cast(tup[1][2]) == ("proj", r, 1) and z[0] == "call"
+            obs.append(Ob("R-HILBERT-CALL", f["path"], "returns (z, x, y) in that order from the zoom search and the curve", ok_t, "returns %s" % tstr(tup)[:120], rel(f["loc"])))
+    return obs
+
+
+def _is_eq0(c, what, outcome):
+    return c[0] == "bin" and c[1] == "==" and {c[2], c[3]} == {what, C(0)} and outcome is True
+
+
+def _is_pow4_sum(t, z):
+    """sum(map(1..z, |i| 4^i))"""
+    if not is_call_to(t, lambda s: s.endswith("::sum")):
+        return False
+    m = t[2][0]
+    if not is_call_to(m, lambda s: s.endswith("::map")) or len(m[2]) != 2:
+        return False
+    rng, clos = m[2]
+    if not (rng[0] == "struct" and rng[1] == "core::ops::range::Range" and struct_field(rng, "start") == C(1) and _strip_cast(struct_field(rng, "end")) == z):
+        return False
+    if clos[0] != "clos" or not clos[2]:
+        return False
+    body = clos[2][0]
+    return is_call_to(body, lambda s: s.endswith("::pow")) and body[2][0] == C(4) and _strip_cast(body[2][1])[0] == "v"
